@@ -69,6 +69,8 @@ REVERTS = [
      "                index = Index(d, dtype=dtype, copy=False)\n", "                index = Index(d)\n"),
     ('revert-F18-levels-always-read-as-RLE', ['C03'], 'fastparquet/core.py',
      "                    io_obj, daph.definition_level_encoding,\n", "                    io_obj, parquet_thrift.Encoding.RLE,\n"),
+    ('revert-F19-bare-loop-over-absent-key-values', ['C10', 'C07'], 'fastparquet/writer.py',
+     "        for kv in obj.key_value_metadata or []:\n", "        for kv in obj.key_value_metadata:\n"),
 ]
 
 # functions whose twins are run per property (module, qualname)
